@@ -195,6 +195,7 @@ def run_check(prop, tier, seed, jobs=None):
     regions = set()
     samples = []
     mutants_expected, mutants_refuted = 0, 0
+    info_notes = []
     cex_items, val_items = [], []
     nontrivial = 0
     final_s = 0.0
@@ -228,6 +229,9 @@ def run_check(prop, tier, seed, jobs=None):
             inconclusive.append((r["name"], "solver returned unknown on a final query"))
         regions.update(r["regions"])
         nontrivial += r["nontrivial"]
+        for nt in r.get("notes", []):
+            if isinstance(nt, dict) and "note" in nt and len(info_notes) < 50:
+                info_notes.append(nt["note"])
         if len(samples) < 6:
             samples.extend(r["samples"][:1])
         for c in r["cex"]:
@@ -338,6 +342,10 @@ def run_check(prop, tier, seed, jobs=None):
     elif inconclusive:
         exit_code = 2
 
+    for nt in info_notes[:3]:
+        lines.append("NOTE: " + nt[:400])
+    if len(info_notes) > 3:
+        lines.append("  (+%d further notes, see evidence)" % (len(info_notes) - 3))
     for n, w in harness_errors[:4]:
         lines.append("HARNESS-ERROR %s: %s" % (n, w.strip()[-900:]))
     if len(harness_errors) > 4:
@@ -380,6 +388,7 @@ def run_check(prop, tier, seed, jobs=None):
             "replays_run": replays_run, "replay_mismatches": mismatches, "candidates_not_confirmed_by_replay": soft_unconfirmed,
             "translator_validations": validated,
             "known_finding_hits": dict(known_hits),
+            "informational_notes": info_notes[:20],
             "inconclusive": [list(x) for x in inconclusive[:20]],
             "harness_errors": [n for n, _ in harness_errors[:20]],
             "repo": os.environ.get("VERIF_REPO", "/repo"),
